@@ -572,3 +572,69 @@ func errorFactIn(facts []Fact, v ssa.Value, want bool) bool {
 }
 
 var _ = types.Typ
+
+// RunBlockEnd: a block body ends at the next @else / @elseif / @end. In parseBlockStmt, the loop's own step to the next
+// statement (nextToken after the statement was parsed) happens only when the next token is none of the three closers —
+// decided by evaluating, for each closer as the peek token, the branch conditions that were tested after the statement
+// was parsed and that dominate the step. Otherwise `@else` (or the condition of an `@elseif`) is swallowed into the
+// branch that precedes it.
+func (m *Model) RunBlockEnd(s *Sink, rule string) {
+	pb := m.Method("parser", "Parser", "parseBlockStmt")
+	ps := m.Method("parser", "Parser", "parseStatement")
+	nt := m.Method("parser", "Parser", "nextToken")
+	if pb == nil || ps == nil || nt == nil {
+		s.Undecided(rule, "parser.parseBlockStmt", "-", "parseBlockStmt / parseStatement / nextToken not found")
+		return
+	}
+	pm := m.extractPratt()
+	ctx := m.Ctx(pb)
+	var stmtCall *ssa.Call
+	for _, c := range callsToFn(pb, ps) {
+		stmtCall = c
+	}
+	if stmtCall == nil {
+		s.Undecided(rule, fnKey(pb)+"|statement parse", m.Pos(pb.Pos()), "no call of parseStatement in parseBlockStmt")
+		return
+	}
+	closers := []string{"ELSE", "ELSE_IF", "END"}
+	n := 0
+	for _, step := range callsToFn(pb, nt) {
+		if !ctx.instrDominates(stmtCall, step) {
+			continue // a step before the statement is parsed (none today)
+		}
+		n++
+		key := fmt.Sprintf("%s|step #%d to the next statement is not taken at a block closer", fnKey(pb), n)
+		var open []string
+		for _, cl := range closers {
+			tv, ok := pm.tokVal[cl]
+			if !ok {
+				s.Undecided(rule, key, m.InstrPos(step), "token %s not found", cl)
+				continue
+			}
+			excluded := false
+			for _, f := range expandFacts(factsAt(step.Block())) {
+				ci, isInstr := f.Cond.(ssa.Instruction)
+				if !isInstr || !ctx.instrDominates(stmtCall, ci) {
+					continue // tested before the statement was parsed: says nothing about the token after it
+				}
+				ip := m.parserInterp(-1, tv, pm.precLit, nil)
+				res, known := ip.EvalValue(f.Cond, 0)
+				rc, isC := res.(constant.Value)
+				if known && isC && rc.Kind() == constant.Bool && constant.BoolVal(rc) != f.Holds {
+					excluded = true
+				}
+			}
+			if !excluded {
+				open = append(open, cl)
+			}
+		}
+		if len(open) == 0 {
+			s.OK(rule, key, m.InstrPos(step), "for each of ELSE, ELSE_IF, END as the next token a condition tested after parseStatement rules the step out")
+		} else {
+			s.Violation(rule, key, m.InstrPos(step), "parseBlockStmt can step over the next token although it is %v: the @else / @elseif / @end that closes this block is swallowed into it (the following branch is merged into this one, silently)", open)
+		}
+	}
+	if n == 0 {
+		s.Undecided(rule, fnKey(pb)+"|steps", m.Pos(pb.Pos()), "no nextToken step after parseStatement in parseBlockStmt")
+	}
+}
